@@ -565,14 +565,16 @@ def rule_device_counterparts(ctx):
     # PD thermal / shot variances (A^2) * R_load^2  vs utils terms with B = fs/2
     fi = pkg.func("devices.PD")
     it = Interp(pkg, assumptions={"include_noise": "all", "input.noise": "none", "input.n_pol": 1}, param_classes={"input": "optical_signal"})
-    it.run(fi)
-    normals = [r for r in it.calls if r.callee == "numpy.random.normal"]     # at any depth: the draw may sit in a private helper or closure
+    it.tag_draws = True
+    outs_pd = it.run(fi)
+    from .c09 import noise_draws, unfilter
+    rets_pd = [o for o in outs_pd if o.kind == "return" and isinstance(o.value, ObjV)]
+    Ypd = unfilter(rets_pd[0].value.fields.get("noise"))[0] if len(rets_pd) == 1 else None
     ren = {"R_load": S("R_L"), "gv.fs": 2 * S("BW_el"), "Fn": S("NF_el")}
     sub = lambda f: f.subst(lambda a: ren.get(a[1]) if a[0] == "sym" else None)
     th_model = 4 * KB * S("T") * S("BW_el") * S("R_L") * mk_fn("exp10", [S("NF_el") / 10])
     got_th = False
-    for r in normals:
-        std = r.arg(1, "scale")
+    for std, _loc, _size, _term, r in noise_draws(it, Ypd / S("R_load") if isinstance(Ypd, Form) else None):
         if not isinstance(std, Form):
             continue
         var_v = sub(fpow(std, 2) * fpow(S("R_load"), 2))
